@@ -217,6 +217,99 @@ static int op_ascii(int argc, char **argv, FILE *out) {
     return 1;
 }
 
+/* ---------- message ops ---------- */
+static void put_msg(FILE *out, struct radmsg *m) {
+    struct list_node *n;
+    fprintf(out, "msg %d %d ", m->code, m->id);
+    puthex(out, m->auth, 16);
+    fprintf(out, " %d", m->msgauthinvalid ? 1 : 0);
+    for (n = list_first(m->attrs); n; n = list_next(n)) {
+        struct tlv *a = (struct tlv *)n->data;
+        fprintf(out, " %d:", a->t);
+        if (a->l && !a->v)
+            fprintf(out, "N%d", a->l);
+        else
+            puthex(out, a->v, a->l);
+    }
+}
+
+/* attribute tokens "<t>:<hex>" or "<t>:N<len>" (value pointer NULL) */
+static int add_attr_tokens(struct radmsg *m, int argc, char **argv) {
+    int i;
+    for (i = 0; i < argc; i++) {
+        char *c = strchr(argv[i], ':');
+        struct tlv *a;
+        if (!c)
+            return 0;
+        if (c[1] == 'N')
+            a = maketlv(atoi(argv[i]), atoi(c + 2), NULL);
+        else {
+            int l;
+            uint8_t *v = hx(c + 1, &l);
+            if (l < 0 || l > 255)
+                return 0;
+            a = maketlv(atoi(argv[i]), l, l ? v : NULL);
+            free(v);
+        }
+        if (!a || !list_push(m->attrs, a))
+            return 0;
+    }
+    return 1;
+}
+
+/* parse <hexpkt> <secret|.> <rqauth|.> -> none | msg ... */
+static int op_parse(int argc, char **argv, FILE *out) {
+    int l, ls = 0, lr = 0;
+    uint8_t *b, *sec = NULL, *rq = NULL;
+    struct radmsg *m;
+    if (argc != 3 || !(b = hx(argv[0], &l)) || l < 20)
+        return 0;
+    if (strcmp(argv[1], "."))
+        sec = hx(argv[1], &ls);
+    if (strcmp(argv[2], "."))
+        rq = hx(argv[2], &lr);
+    if (rq && lr != 16)
+        return 0;
+    m = buf2radmsg(b, l, sec, ls, rq);
+    if (!m)
+        fputs("none", out);
+    else {
+        put_msg(out, m);
+        radmsg_free(m);
+    }
+    free(b); free(sec); free(rq);
+    return 1;
+}
+
+/* serialize <secret|.> <code> <id> <auth16> <attr>... -> fail | ok <hexpkt> <auth'> */
+static int op_serialize(int argc, char **argv, FILE *out) {
+    int ls = 0, la, size;
+    uint8_t *sec = NULL, *auth, *buf = NULL;
+    struct radmsg *m;
+    if (argc < 4)
+        return 0;
+    if (strcmp(argv[0], "."))
+        sec = hx(argv[0], &ls);
+    auth = hx(argv[3], &la);
+    if (la != 16)
+        return 0;
+    m = radmsg_init(atoi(argv[1]), atoi(argv[2]), auth);
+    if (!add_attr_tokens(m, argc - 4, argv + 4))
+        return 0;
+    size = radmsg2buf(m, sec, ls, &buf);
+    if (size < 0 || !buf)
+        fputs("fail", out);
+    else {
+        fputs("ok ", out);
+        puthex(out, buf, size);
+        fputc(' ', out);
+        puthex(out, m->auth, 16);
+    }
+    free(buf); free(sec); free(auth);
+    radmsg_free(m);
+    return 1;
+}
+
 /* ---------- logging ops ---------- */
 extern void h_debug_capture_start(void);
 extern char *h_debug_capture_stop(size_t *len);
@@ -341,6 +434,8 @@ static int op_hashmac(int argc, char **argv, FILE *out) {
 }
 
 int h_rsp_op(const char *op, int argc, char **argv, FILE *out) {
+    if (!strcmp(op, "parse")) return op_parse(argc, argv, out);
+    if (!strcmp(op, "serialize")) return op_serialize(argc, argv, out);
     if (!strcmp(op, "replylog")) return op_replylog(argc, argv, out);
     if (!strcmp(op, "fticks")) return op_fticks(argc, argv, out);
     if (!strcmp(op, "hashmac")) return op_hashmac(argc, argv, out);
